@@ -75,7 +75,7 @@ func program(c Cell) (*progen.Spec, int) {
 	fail := &progen.Fail{Mode: c.Mode, Persistent: c.Persistent}
 	perRowSite := false
 	switch c.Site {
-	case "reader", "writer", "scan":
+	case "reader", "writer", "scan", "reader-reduce", "writer-reduce":
 		// position is the row position within a shard
 		switch c.Pos {
 		case "first":
@@ -109,6 +109,9 @@ func program(c Cell) (*progen.Spec, int) {
 		switch c.Site {
 		case "reduce-cross":
 			return []int{i, (shard*7 + i) % 23}
+		case "reader-reduce", "writer-reduce":
+			// many distinct keys: the producer's combine buffers are flushed while the shard is still being read
+			return []int{i % 50, (shard*7 + i) % 23}
 		default:
 			return []int{i % 7, (shard*7 + i) % 23}
 		}
@@ -133,6 +136,15 @@ func program(c Cell) (*progen.Spec, int) {
 	case "writer":
 		s := add(src)
 		site = add(progen.Node{Op: "writerfunc", In: []int{s}, Fn: &progen.Fn{Fail: fail}})
+	case "reader-reduce":
+		// the failing reader feeds a Reduce: its task combines rows while it reads them
+		src.Fn = &progen.Fn{Fail: fail}
+		site = add(src)
+		add(progen.Node{Op: "reduce", In: []int{site}, Fn: &progen.Fn{}})
+	case "writer-reduce":
+		s := add(src)
+		site = add(progen.Node{Op: "writerfunc", In: []int{s}, Fn: &progen.Fn{Fail: fail}})
+		add(progen.Node{Op: "reduce", In: []int{site}, Fn: &progen.Fn{}})
 	case "map":
 		s := add(src)
 		site = add(progen.Node{Op: "map", In: []int{s}, Fn: &progen.Fn{Exprs: []progen.Expr{{K: "col", I: 0}, {K: "hash", T: progen.TInt, M: 50}}, Fail: fail}})
@@ -327,7 +339,7 @@ func judge(c Cell, out *Outcome, crashed bool, log string) (violation string, si
 		}
 		// A persistently "temporary" failure ends as "lost too many times"; the statement asks for the
 		// user's message for (plain) reader and writer errors and for every panic.
-		needMsg := c.Mode == "panic" || ((c.Site == "reader" || c.Site == "writer") && c.Mode == "error")
+		needMsg := c.Mode == "panic" || ((c.Site == "reader" || c.Site == "writer" || c.Site == "reader-reduce" || c.Site == "writer-reduce") && c.Mode == "error")
 		if needMsg && !strings.Contains(errText, progen.InjectedMsg) {
 			return fmt.Sprintf("the error returned for a persistent %s in %s does not carry the user's message: %s", c.Mode, c.Site, tail(errText, 1500)), "message-lost:" + c.Site + ":" + c.Mode + ":" + c.Cfg.Exec + mc(c), true
 		}
@@ -465,6 +477,8 @@ func allCells() []Cell {
 		{"reader", []string{"error", "temp", "retriable", "panic"}, []string{"first", "mid", "last", "eof"}},
 		{"writer", []string{"error", "temp", "retriable", "panic"}, []string{"first", "mid", "last", "eof"}},
 		{"scan", []string{"error", "temp", "retriable", "panic"}, []string{"first", "mid", "last", "eof"}},
+		{"reader-reduce", []string{"error", "temp", "retriable", "panic"}, []string{"first", "mid", "last", "eof"}},
+		{"writer-reduce", []string{"error", "temp", "retriable", "panic"}, []string{"first", "mid", "last", "eof"}},
 		{"map", []string{"panic"}, []string{"first", "mid", "last"}},
 		{"filter", []string{"panic"}, []string{"first", "mid", "last"}},
 		{"flatmap", []string{"panic"}, []string{"first", "mid", "last"}},
@@ -494,6 +508,19 @@ func report(t *testing.T, rec *vt.Rec, test string, seen map[string]bool) func(i
 	return func(i int, c Cell, out *Outcome, crashed bool, log string) {
 		v, sig, reached := judge(c, out, crashed, log)
 		classes := []string{"site:" + c.Site, "mode:" + c.Mode, "exec:" + c.Cfg.Exec + mc(c)}
+		// Known finding (known_findings.json, machine-combiner-retry-double-count): in a session with
+		// machine combiners a task that fails after it has combined part of its shard into the
+		// machine-wide buffer is re-run and its rows are combined twice. Exactly that class - one-shot
+		// temporary failure of a task feeding a machine combiner, reported as success with other rows -
+		// is not reported again; the canonical cell is reported as KNOWN-FINDING while it still fails.
+		if v != "" && strings.HasPrefix(sig, "wrong-rows:") && c.Cfg.MachineCombiners && !c.Persistent &&
+			(c.Site == "reader-reduce" || c.Site == "writer-reduce") && (c.Mode == "temp" || c.Mode == "retriable") {
+			rec.Exclude("machine-combiner-retry-double-count")
+			if c.Site == "reader-reduce" && c.Mode == "temp" && c.Pos == "last" {
+				rec.KnownStillFails("machine-combiner-retry-double-count", tail(v, 300))
+			}
+			v = ""
+		}
 		if !reached {
 			classes = append(classes, "unreached")
 		}
@@ -516,7 +543,7 @@ func TestVerifC06Matrix(t *testing.T) {
 		t.Skip()
 	}
 	rec := vt.New("C06", "failure-matrix",
-		"complete enumeration of the cross product call site {reader, writer, scan callback, map, filter, flatmap, fold, reduce combiner with keys repeated inside a shard, reduce combiner with keys shared only across shards, partitioner} x applicable failure modes {error, temporary error (severity Temporary and severity Retriable), panic, out-of-range partition} x {persistent, one-shot} x position {first row, row 128, last row, end-of-stream} x executor {local, bigmachine test system, bigmachine with machine combiners}; each cell runs in a disposable child process; oracle: persistent failure => non-nil error from Run/scan carrying the injected message for reader/writer errors and every panic, no hang (120 s), bounded re-invocation, driver process survives, never success with wrong rows; one-shot temporary failure => success with reference rows; a later run in the same session (of Exclusive tasks, which need every execution slot, so that a slot leaked by the failed run wedges it) is correct; non-trivial = the injection fired; distinct by cell")
+		"complete enumeration of the cross product call site {reader, writer, scan callback, reader and writer feeding a Reduce over many keys (the failing task has combined part of its shard already), map, filter, flatmap, fold, reduce combiner with keys repeated inside a shard, reduce combiner with keys shared only across shards, partitioner} x applicable failure modes {error, temporary error (severity Temporary and severity Retriable), panic, out-of-range partition} x {persistent, one-shot} x position {first row, row 128, last row, end-of-stream} x executor {local, bigmachine test system, bigmachine with machine combiners}; each cell runs in a disposable child process; oracle: persistent failure => non-nil error from Run/scan carrying the injected message for reader/writer errors and every panic, no hang (120 s), bounded re-invocation, driver process survives, never success with wrong rows; one-shot temporary failure => success with reference rows; a later run in the same session (of Exclusive tasks, which need every execution slot, so that a slot leaked by the failed run wedges it) is correct; non-trivial = the injection fired; distinct by cell")
 	docs, only := vt.Replays(tMatrix)
 	seen := map[string]bool{}
 	if len(docs) > 0 {
